@@ -469,10 +469,14 @@ def roots(p: npt.ArrayLike) -> npt.NDArray[np.number]:
         return np.array([x1, x2, x3])
 
     else:  # One real root and two complex roots
-        R = -(g / 2) + np.sqrt(h)
-        S = np.cbrt(R)
-        T = -(g / 2) - np.sqrt(h)
-        U = np.cbrt(T)
+        # S**3 = -g/2 + sqrt(h) and U**3 = -g/2 - sqrt(h): the one without cancellation is computed from its formula,
+        # the other one from the relation S * U = -f / 3
+        if g <= 0:
+            S = np.cbrt(-(g / 2) + np.sqrt(h))
+            U = -f / (3 * S)
+        else:
+            U = np.cbrt(-(g / 2) - np.sqrt(h))
+            S = -f / (3 * U)
 
         x1 = (S + U) - (b / (3 * a))
         x2 = -(S + U) / 2 - (b / (3 * a)) + (S - U) * np.sqrt(3) * 0.5j
